@@ -76,6 +76,12 @@ type Case struct {
 	SpellKeys []string `json:"spellKeys,omitempty"`
 	Dups      []KV     `json:"dups,omitempty"`
 
+	// num / fee (num.go): the written value of ONE numeric chain setting (Chain, Field = its key); the fee
+	// amount text (Text) of resource number FeeAt among FeeOf BTC resources
+	W     *WNum `json:"w,omitempty"`
+	FeeOf int   `json:"feeof,omitempty"`
+	FeeAt int   `json:"feeat,omitempty"`
+
 	Locals       []Entry `json:"locals,omitempty"`
 	Shared       []Entry `json:"shared,omitempty"`
 	SharedIntIds bool    `json:"sharedIntIds,omitempty"` // shared ids as Go int (hand-built config) instead of float64 (fetched JSON)
@@ -122,7 +128,7 @@ func relayerDoc(c Case) map[string]interface{} {
 	bully := map[string]interface{}{}
 	rel := map[string]interface{}{"mpcConfig": mpc, "bullyConfig": bully}
 	switch c.Kind {
-	case "port":
+	case "port", "port0":
 		if c.Field == "health" {
 			rel["healthPort"] = c.Text
 		} else {
@@ -142,6 +148,10 @@ func relayerDoc(c Case) map[string]interface{} {
 			bully["electionWaitTime"] = c.Text
 		case "bullywait":
 			bully["bullyWaitTime"] = c.Text
+		}
+	case "upl":
+		if v, ok := numValue(*c.W, "file"); ok {
+			rel["uploaderConfig"] = map[string]interface{}{"maxRetries": v}
 		}
 	case "level":
 		rel["logLevel"] = c.Text
@@ -175,7 +185,7 @@ func relayerEnv(c Case) map[string]string {
 		"SYG_RELAYER_MPCCONFIG_PORT":                                "9000",
 	}
 	switch c.Kind {
-	case "port":
+	case "port", "port0":
 		if c.Field == "health" {
 			env["SYG_RELAYER_HEALTHPORT"] = c.Text
 		} else {
@@ -679,7 +689,13 @@ func run(c Case) Obs {
 			m = cfg.ChainConfigs[0]
 		}
 		return cstrRead(c, m)
-	case "port":
+	case "num":
+		return runNum(c)
+	case "upl":
+		return runUpl(c)
+	case "fee":
+		return runFee(c)
+	case "port", "port0":
 		cfg, err := load(c, c.Loader, nil, &config.Config{})
 		if err != nil {
 			return Obs{Err: err.Error()}
@@ -1479,6 +1495,11 @@ func gen(r *vgen.Rng, tier string) []Case {
 	out = append(out, genChainIds(r, tier)...)
 	out = append(out, genMerges(r, tier)...)
 	out = append(out, genKeys(r, tier)...)
+	out = append(out, genNums(r, tier)...)
+	out = append(out, genFees(r, tier)...)
+	out = append(out, genPort0s(r, tier)...)
+	out = append(out, genDurSpellings(r, tier)...)
+	out = append(out, genUpls(r, tier)...)
 	return out
 }
 
@@ -1579,11 +1600,25 @@ func coq(c Case, o Obs) string {
 			return "Port " + vgen.Str(c.Text) + " " + vgen.Some(zOfDec(o.Value))
 		}
 		return "Port " + vgen.Str(c.Text) + " None"
+	case "port0":
+		if o.Ok {
+			return "PortText " + cstr(c.Text) + " " + vgen.Some(zOfDec(o.Value))
+		}
+		return "PortText " + cstr(c.Text) + " None"
+	case "fee":
+		if o.Ok {
+			return "Fee " + cstr(c.Text) + " " + vgen.Some(zOfDec(o.Value))
+		}
+		return "Fee " + cstr(c.Text) + " None"
+	case "num":
+		return coqNum(c, o)
+	case "upl":
+		return coqUpl(c, o)
 	case "dur":
 		if o.Ok {
-			return "Dur " + vgen.Str(c.Text) + " " + vgen.Some(zOfDec(o.Value))
+			return "Dur " + cstr(c.Text) + " " + vgen.Some(zOfDec(o.Value))
 		}
-		return "Dur " + vgen.Str(c.Text) + " None"
+		return "Dur " + cstr(c.Text) + " None"
 	case "net":
 		if o.Ok {
 			return "Net " + vgen.Z(*c.Net) + " " + vgen.Some(zOfDec(o.Value))
@@ -1677,8 +1712,17 @@ func kind(c Case) string {
 		return kind(d) + "-spelled"
 	}
 	switch c.Kind {
-	case "port", "dur":
+	case "port", "dur", "port0":
 		return c.Kind + "-" + c.Loader + "-" + c.Field
+	case "num":
+		if inexactJSON(c) {
+			return "num-json-rounded-" + c.Chain + "-" + c.Loader
+		}
+		return "num-" + c.Chain + "-" + c.Loader
+	case "upl":
+		return "upl-" + c.Loader
+	case "fee":
+		return "fee-" + c.Loader
 	case "chain":
 		if c.Id != nil {
 			return "chainid-" + c.Chain + "-" + c.Loader
@@ -1733,8 +1777,12 @@ func main() {
 				return len(t) > 0 && t[0] >= '0' && t[0] <= '9'
 			case "chain":
 				return c.Interval != nil || c.Confs != nil || c.Missing != "" || c.Id != nil
-			case "net", "level":
+			case "net", "level", "fee", "port0":
 				return true
+			case "upl":
+				return c.W != nil && !c.W.Absent
+			case "num":
+				return c.W != nil && !c.W.Absent
 			case "str", "cstr":
 				for _, sv := range c.Strs {
 					if sv.V != nil && *sv.V != "" {
@@ -1745,6 +1793,6 @@ func main() {
 			}
 			return len(c.Locals) > 0
 		},
-		Rule: "boundary lists (0, +-1, 32767/32768, 65535/65536, 2^31, 2^63, 2^64, int64-overflow edge per duration unit) x {file, env} loader x field for ports and durations; substrateNetwork at the uint16 edges x {direct, file, env}; interval x confirmations grid x {evm, substrate, btc} x {constructor directly, via file loader, via env loader} with missing-required-field variants; the chain id through the same three constructors x three paths: 0, 1, 2, 254, 255, 256, 257, 511, 513, 65535, 65537, 2^31, 2^32+1, 2^53, -1, -255 (float64 and Go int), 3/2, 511/2, 513/2, 1/2, -1/2, 1025/1024, integers spelled as floats (1.0, 255.0, 256.0, 257.0), ids written as strings / bools, and random ids (in range, congruent to an id in range mod 256, negative, fractional) combined with other settings and missing fields; the complete two-key local/shared state matrix (absent, local only, shared only, equal, different, empty-vs-set, set-vs-empty, empty only, both empty) plus random 0..3-chain configurations with unknown ids, missing id/type, int and float ids; chain ids over 0..3, 255..258, 511..513, 65535..65537, 2^31, 2^32+1, negative, non-integral and string ids against shared configurations holding the same id, none, only a congruent id (mod 2^8 / 2^16 / 2^32, truncated / rounded), or the congruent id before the equal one; after every accepted chain config the start-block computation is run on the config's own pointers three times and String() once and ALL fields of the config object are compared by value with a snapshot taken right after loading; the 12 string-valued relayer settings (opentelemetry url, log file, env, id, key share paths, MPC key, topology encryption key / url / path, uploader url / token) x {file, env} x a catalogue of texts ('=' anywhere, '==' at the end, URL punctuation, '_' and the SYG prefix inside the value, blanks, quotes, JSON/shell meta characters, texts that look like numbers/bools/null, unicode, 4 kB) one at a time and all at once with pairwise different texts (rotated catalogue + random texts, settings left out / empty); log level names and non-names; string, bool and handler-list settings of evm/substrate/btc chain entries through the constructor directly, the file loader and SYG_CHAINS; key spelling: the id key as Id / ID / iD x ids in and out of 0..255 x {constructor, loader without a shared configuration, loader with one}, every key of a chain entry in lower / Upper-first / ALL CAPS / mIxEd spelling, each numeric key alone in another spelling at its range edges, one key under two spellings with different values (exact + other, two non-exact), random subsets of respelled keys, relayer-level keys and environment variable names in other spellings, respelled id / type in local and shared entries of the merge; distinct = distinct input JSON; non-trivial = text of the modelled grammar / at least one numeric setting or a missing required field / at least one local chain",
+		Rule: "boundary lists (0, +-1, 32767/32768, 65535/65536, 2^31, 2^63, 2^64, int64-overflow edge per duration unit) x {file, env} loader x field for ports and durations; substrateNetwork at the uint16 edges x {direct, file, env}; interval x confirmations grid x {evm, substrate, btc} x {constructor directly, via file loader, via env loader} with missing-required-field variants; the chain id through the same three constructors x three paths: 0, 1, 2, 254, 255, 256, 257, 511, 513, 65535, 65537, 2^31, 2^32+1, 2^53, -1, -255 (float64 and Go int), 3/2, 511/2, 513/2, 1/2, -1/2, 1025/1024, integers spelled as floats (1.0, 255.0, 256.0, 257.0), ids written as strings / bools, and random ids (in range, congruent to an id in range mod 256, negative, fractional) combined with other settings and missing fields; the complete two-key local/shared state matrix (absent, local only, shared only, equal, different, empty-vs-set, set-vs-empty, empty only, both empty) plus random 0..3-chain configurations with unknown ids, missing id/type, int and float ids; chain ids over 0..3, 255..258, 511..513, 65535..65537, 2^31, 2^32+1, negative, non-integral and string ids against shared configurations holding the same id, none, only a congruent id (mod 2^8 / 2^16 / 2^32, truncated / rounded), or the congruent id before the equal one; after every accepted chain config the start-block computation is run on the config's own pointers three times and String() once and ALL fields of the config object are compared by value with a snapshot taken right after loading; the 12 string-valued relayer settings (opentelemetry url, log file, env, id, key share paths, MPC key, topology encryption key / url / path, uploader url / token) x {file, env} x a catalogue of texts ('=' anywhere, '==' at the end, URL punctuation, '_' and the SYG prefix inside the value, blanks, quotes, JSON/shell meta characters, texts that look like numbers/bools/null, unicode, 4 kB) one at a time and all at once with pairwise different texts (rotated catalogue + random texts, settings left out / empty); log level names and non-names; string, bool and handler-list settings of evm/substrate/btc chain entries through the constructor directly, the file loader and SYG_CHAINS; key spelling: the id key as Id / ID / iD x ids in and out of 0..255 x {constructor, loader without a shared configuration, loader with one}, every key of a chain entry in lower / Upper-first / ALL CAPS / mIxEd spelling, each numeric key alone in another spelling at its range edges, one key under two spellings with different values (exact + other, two non-exact), random subsets of respelled keys, relayer-level keys and environment variable names in other spellings, respelled id / type in local and shared entries of the merge; every numeric / duration setting of RawEVMConfig, RawSubstrateConfig and RawBtcConfig (maxGasPrice, gasMultiplier, gasIncreasePercentage, gasLimit, transferGas, startBlock, blockConfirmations, blockInterval, blockRetryInterval, chainID, substrateNetwork, tip) one at a time with the boundary values of its type (-2^63, -2^53-1, -2^32, -2^31, -1, 0, 1, 2, 255, 65535, 2^31, 2^32, 2^53+-1, 2^63-1, 2^63, 2^64-1 as Go integers; the float64-exact ones, 2^64, 2^65, +-1e30 for the settings with a lower bound, as float64 and as the digits of a JSON document through the file / env loaders with and without a shared configuration), fractions (gasMultiplier; negative ones for unsigned settings), strings holding numbers in several spellings, bools, the key left out, and random integers of the type; the feeAmount string of a BTC resource (alone, second of two, any of three) in 80 spellings - zero padded, signed, 0x / 0b / 0o, '_', blanks and line ends, thousands separators, exponent and fraction forms, words, other digit scripts, empty - plus random (padded / signed) decimals of up to 90 bits x {constructor, file, env}; relayer ports in the spellings of the base-0 syntax (zero padded with the same value, 08 / 09, 0x / 0X / 0b / 0o at the 16-bit edge, '_' in every position); distinct = distinct input JSON; non-trivial = text of the modelled grammar / at least one numeric setting or a missing required field / at least one local chain",
 	})
 }
